@@ -192,6 +192,8 @@ def run(ctx):
         reqs.append(dict(op="degree", adj=adj, xs=rep["xs"], T=rep["T"]))
         metas.append(("degree", rep, impl))
     generated_model(ctx, reqs, metas)
+    import genhelp
+    genhelp.run_stream(ctx, "degree")
     # ---- compare
     for (kind, rep, impl), m in zip(metas, drv.batch(reqs)):
         ctx.traces += 1
